@@ -246,6 +246,7 @@ RULES = [
     ("C07-R3", "rows reach the aggregation buffer once, after the filter [shared with C07]", lambda ctx: __import__("c07").r3(ctx)),
     ("X-PHASES", "clause order and phase flags of Parser::parse; WHERE shorthand window [shared]", lambda ctx: __import__("extra").parser_phases(ctx)),
     ("X-BUFFER", "buffering predicates (ordered or aggregate) and recursive expression predicates [shared]", lambda ctx: __import__("extra").buffering_predicates(ctx)),
+    ("X-PIPELINE", "the per-entry pipeline of check_file evaluated on its scenario table (filter, count, row, buffer key, separator, closed output) [shared]", lambda ctx: __import__("cfile").pipeline(ctx)),
 ]
 
 EXPLANATION = (
